@@ -76,6 +76,10 @@ func bodies(sc scenario) []sched.Body {
 					res = append(res, c19ops.ReadShared(shared))
 					continue
 				}
+				if n == "reuse-shared-inputs" {
+					res = append(res, c19ops.ReuseInputs(shared, ti))
+					continue
+				}
 				res = append(res, opByName(n).Run(ti*16+oi+1))
 			}
 			return strings.Join(res, " ; ")
@@ -99,7 +103,7 @@ func scenarios(tier string) []scenario {
 	for _, o := range c19ops.Ops {
 		names = append(names, o.Name)
 	}
-	names = append(names, "read-shared")
+	names = append(names, "read-shared", "reuse-shared-inputs")
 	for i, a := range names {
 		for _, b := range names[i:] {
 			out = append(out, scenario{Name: a + " || " + b, Threads: [][]string{{a}, {b}}})
